@@ -49,6 +49,8 @@ def signer_key(name):
         warnings.simplefilter('ignore')
         k = pool.pgpy_key(name, uid='Signer ' + name, sub='ed25519_1' if name != 'ed25519_1' else 'ed25519_2', sub_usage={KeyFlags.Sign}, fresh=True)
         k.add_uid(pgpy.PGPUID.new(bytearray(JPEG)))
+        # second subkey: encryption-only (ECDH); listed after the signing subkey, so index 0 stays the signing one
+        k.add_subkey(pool.pgpy_bare('cv25519_2'), usage={KeyFlags.EncryptCommunications, KeyFlags.EncryptStorage})
     pool._CACHE[ck] = k
     return k
 
